@@ -577,6 +577,8 @@ public:
       throw DimensionException("MatrixTools::pow(). nrows != ncols.", A.getNumberOfColumns(), A.getNumberOfRows());
     vO.resize(p + 1);
     getId<Matrix>(n, vO[0]);
+    if (p == 0)
+      return;
     copy(A, vO[1]);
 
     for (size_t i = 1; i < p; i++)
